@@ -171,7 +171,11 @@ func c161(c *an.Ctx, p *an.Prog) {
 				if ext != ".admin" && ext != ".user" {
 					bad = append(bad, "returns a nil error for an extension other than .admin/.user on path "+s.BlockPath())
 				}
-				if adminT.IsConst("true") != (ext == ".admin") {
+				adminTrue := adminT.IsConst("true") || (!adminT.IsConst("false") && s.IsTrue(adminT))
+				if !adminT.IsConst("true") && !adminT.IsConst("false") && !s.IsTrue(adminT) && !s.IsFalse(adminT) {
+					bad = append(bad, "admin flag is not decided by the extension on path "+s.BlockPath()+": "+adminT.K)
+				}
+				if adminTrue != (ext == ".admin") {
 					bad = append(bad, "admin flag does not correspond to the .admin extension on path "+s.BlockPath())
 				}
 				// user = TrimSuffix(filename, same ext)
